@@ -7,7 +7,10 @@ from .common import unfl, run_driver_parallel
 CANON = {"kind": "csr", "sym": False}
 REPRS = [{"kind": "list"}, {"kind": "tuple"}, {"kind": "dense"}, {"kind": "dense", "dtype": "float64"}, {"kind": "dense", "dtype": "bool"},
          {"kind": "csr"}, {"kind": "csc"}, {"kind": "lil"}, {"kind": "csr_array"}, {"kind": "dense", "lower": True},
-         {"kind": "list", "sym": True}, {"kind": "dense", "sym": True}, {"kind": "csr", "sym": True}, {"kind": "csr", "lower": True}]
+         {"kind": "list", "sym": True}, {"kind": "dense", "sym": True}, {"kind": "csr", "sym": True}, {"kind": "csr", "lower": True},
+         {"kind": "csr", "mixed": True}, {"kind": "dense", "mixed": True}, {"kind": "list", "mixed": True}]
+# containers the C05 families draw from (the bracket must not depend on how the undirected edges are stored)
+C05_REPRS = [CANON, CANON, {"kind": "csr", "lower": True}, {"kind": "csr", "mixed": True}, {"kind": "dense", "mixed": True}, {"kind": "list", "sym": True}, {"kind": "csc", "mixed": True}]
 
 
 # ------------------------------------------------------------------ graphs
@@ -170,7 +173,7 @@ def half2(x):
 
 def pair_case(gx, gy, res, exact, others=(), iso=None, cmaps=None, algo=True):
     nX, EX, nY, EY = gx[0], gx[1], gy[0], gy[1]
-    c = dict(kind="pair", nX=nX, EX=[list(e) for e in EX], nY=nY, EY=[list(e) for e in EY], raised=0, halfint=1, lb2=0, ub2=0,
+    c = dict(kind="pair", mine="C17", nX=nX, EX=[list(e) for e in EX], nY=nY, EY=[list(e) for e in EY], raised=0, halfint=1, lb2=0, ub2=0,
              warn=res.get("warn", 0), exact=int(exact), iso=iso or [], cmapXY=(cmaps or [[], []])[0], cmapYX=(cmaps or [[], []])[1],
              samples=[], hook=0, others=list(others), algo=int(algo), nreplay=(10 ** 6 if max(nX, nY) <= 12 else 1),
              DXc=dist_matrix(nX, EX) if nX > 16 else [], DYc=dist_matrix(nY, EY) if nY > 16 else [])
@@ -203,6 +206,8 @@ def validate(ctx, items, label, mine, nproc=12):
         for c in it["mk"](r):
             cases.append(c)
             owner.append(it)
+    for c in cases:
+        c["mine"] = mine
     verdicts, st = tlc.run_batch("TraceMGH", cases, nproc=nproc, heap="3g")
     ctx.extra.setdefault("trace_validation_runs", []).append(dict(label=label, cases=len(cases), tlc_states=st["states"], wall_s=round(st["wall"], 1)))
     for c, v, it in zip(cases, verdicts, owner):
